@@ -125,7 +125,6 @@ Variable ism : nat -> bool.
 Record bframe (pre post Zi : zone) : Prop := mkBframe {
   bf_out_sid : forall s, List.In s (pre ++ post)%list -> sid s < off \/ off + ns <= sid s;
   bf_in_sid : forall t, List.In t Zi -> sid t < ns;
-  bf_nodup : NoDup (map sid Zi);
   bf_out_cc : forall s t, List.In s (pre ++ post)%list -> List.In t Zi -> country s <> country t;
   bf_in_cur : forall t, List.In t Zi -> currency_of (j_countries J) (country t) = cur;
   bf_out_cur : forall s, List.In s (pre ++ post)%list -> currency_of (j_countries J) (country s) <> cur;
@@ -146,13 +145,10 @@ Hypothesis HI : info_ok.
 Lemma bframe_frame pre post Zi Zi' : bframe pre post Zi -> Forall2 frame Zi Zi' ->
   fx_ok J (pre ++ map E Zi' ++ post)%list -> bframe pre post Zi'.
 Proof.
-  intros [A1 A2 A3 A4 A5 A6 A7 A8 A9] HF Hfx.
+  intros [A1 A2 A4 A5 A6 A7 A8 A9] HF Hfx.
   pose proof (Forall2_frame_In_r _ _ HF) as HIn.
-  assert (Hsid : map sid Zi' = map sid Zi).
-  { clear -HF. induction HF as [|a b l l' Hab _ IH]; [reflexivity|]. cbn. rewrite IH. f_equal. now apply frame_sid. }
   constructor; try assumption.
   - intros t' Ht. destruct (HIn _ Ht) as (t & H1 & H2). rewrite (frame_sid _ _ H2). now apply A2.
-  - now rewrite Hsid.
   - intros s t' Hs Ht. destruct (HIn _ Ht) as (t & H1 & H2). rewrite (frame_country _ _ H2). now apply A4.
   - intros t' Ht. destruct (HIn _ Ht) as (t & H1 & H2). rewrite (frame_country _ _ H2). now apply A5.
   - rewrite Forall_forall in *. intros t' Ht. destruct (HIn _ Ht) as (t & H1 & H2).
